@@ -118,6 +118,13 @@ Theorem C15_segment_builder_call_sequences_round_trip : forall key ops, Forall o
 Proof. exact segment_builder_round_trip. Qed.
 Print Assumptions C15_segment_builder_call_sequences_round_trip.
 
+(* the hypothesis on AddRule, call by call: a rule builder given valid clauses and a valid variation-or-rollout builds a
+   valid rule, whatever the order and repetition of its calls *)
+Theorem C15_rule_builder_of_valid_parts : forall ops, Forall ok_rbop ops ->
+  wf_rule (rb_build ops) /\ canon_rule (rb_build ops) = rb_build ops.
+Proof. exact rule_of_valid_parts. Qed.
+Print Assumptions C15_rule_builder_of_valid_parts.
+
 (* an intermediate Build() leaves the builder as it was *)
 Theorem C15_intermediate_build_is_invisible : forall key l1 l2, fb_build key (l1 ++ FBuild :: l2) = fb_build key (l1 ++ l2).
 Proof. exact intermediate_build_is_invisible. Qed.
